@@ -290,7 +290,12 @@ func (g *G) CreateIndex() ([]Tok, *ast.CreateIndexStatement) {
 	t = cat(t, sym(nm.src), g.kw("ON"), nameToks(tb))
 	if g.chance(25, "using") {
 		m := []string{"btree", "hash", "gin"}[g.intn(3, "method")]
-		t = cat(t, g.kw("USING"), sym(m))
+		if g.F.Corners && g.chance(20, "quotedmethod") {
+			m = "My Method"
+			t = cat(t, g.kw("USING"), sym(`"My Method"`))
+		} else {
+			t = cat(t, g.kw("USING"), sym(m))
+		}
 		s.Using = m
 	}
 	var cols [][]Tok
@@ -396,7 +401,14 @@ func (g *G) CreateMatView() ([]Tok, *ast.CreateMaterializedViewStatement) {
 	s.Name = nm.name
 	qt, qn := g.viewQuery()
 	s.Query = qn
-	t = cat(t, nameToks(nm), g.kw("AS"), qt)
+	t = cat(t, nameToks(nm))
+	if g.F.Corners && g.chance(25, "mvtablespace") {
+		g.use("matview_tablespace")
+		ts := []ident{bare("ts1"), q("my ts")}[g.intn(2, "tablespacename")]
+		t = cat(t, g.kw("TABLESPACE"), sym(ts.src))
+		s.Tablespace = ts.name
+	}
+	t = cat(t, g.kw("AS"), qt)
 	switch g.intn(4, "withdata") {
 	case 1:
 		t = cat(t, g.kw("WITH", "DATA"))
